@@ -17,7 +17,7 @@
     Out of the model: Python's [tokenize] itself (the correspondence feeds the real token
     lists), non-ASCII digits in [str.isdigit]. *)
 From Coq Require Import Ascii String Qcabs.
-From PintV Require Import Model.UC Model.Eval Model.Registry.
+From PintV Require Import Model.UC Model.Eval Model.Registry Model.Measure.
 Open Scope string_scope.
 
 Inductive tty := TyNumber | TyName | TyOp | TyString | TyNewline | TyEnd | TyOther.
@@ -26,10 +26,6 @@ Proof. solve_decision. Defined.
 Notation pos := (Z * Z)%type.
 Record utok := UTok { ty : tty; tx : string; ts : pos; te : pos }.
 Global Instance utok_eq_dec : EqDecision utok.
-Proof. solve_decision. Defined.
-Global Instance err_eq_dec : EqDecision err.
-Proof. solve_decision. Defined.
-Global Instance res_eq_dec {A} `{EqDecision A} : EqDecision (res A).
 Proof. solve_decision. Defined.
 
 (** * Deviations of the code as found from the property (defect switches, DESIGN 2.6).
@@ -185,26 +181,32 @@ Definition short_unc_text (q : quirks) (v u : string) : string :=
 (** which branch of the main loop the head token takes *)
 Inductive kind := KPlusMinus | KParen (seen_minus : nat) | KShort | KPlain.
 
+(** the three [if]/[elif] conditions of the main loop *)
+Definition cond_pm (t : utok) (rest : list utok) : res bool :=
+  rand (Ok (String.eqb (tx t) "+")) (rand (la_is rest 0 "/") (la_is rest 1 "-")).
+Definition cond_paren (t : utok) (rest : list utok) : res (option nat) :=
+  if String.eqb (tx t) "(" then
+    t0 ←r la rest 0;
+    let sm := if String.eqb (tx t0) "-" then 1%nat else 0%nat in
+    b ←r rand (la_p rest sm number_or_nan)
+          (rand (la_is rest (sm + 1) "+")
+            (rand (la_is rest (sm + 2) "/")
+              (rand (la_is rest (sm + 3) "-")
+                (rand (la_p rest (sm + 4) number_or_nan)
+                      (la_is rest (sm + 5) ")")))));
+    Ok (if b then Some sm else None)
+  else Ok None.
+Definition cond_short (t : utok) (rest : list utok) : res bool :=
+  rand (Ok (is_number t))
+       (rand (la_is rest 0 "(") (rand (la_p rest 1 is_number) (la_is rest 2 ")"))).
+
 Definition classify (t : utok) (rest : list utok) : res kind :=
-  c1 ←r rand (Ok (String.eqb (tx t) "+")) (rand (la_is rest 0 "/") (la_is rest 1 "-"));
+  c1 ←r cond_pm t rest;
   if c1 then Ok KPlusMinus else
-  c2 ←r (if String.eqb (tx t) "(" then
-           t0 ←r la rest 0;
-           let sm := if String.eqb (tx t0) "-" then 1%nat else 0%nat in
-           b ←r rand (la_p rest sm number_or_nan)
-                 (rand (la_is rest (sm + 1) "+")
-                   (rand (la_is rest (sm + 2) "/")
-                     (rand (la_is rest (sm + 3) "-")
-                       (rand (la_p rest (sm + 4) number_or_nan)
-                             (la_is rest (sm + 5) ")")))));
-           Ok (if b then Some sm else None)
-         else Ok None);
+  c2 ←r cond_paren t rest;
   match c2 with
   | Some sm => Ok (KParen sm)
-  | None =>
-      c3 ←r rand (Ok (is_number t))
-              (rand (la_is rest 0 "(") (rand (la_p rest 1 is_number) (la_is rest 2 ")")));
-      Ok (if c3 then KShort else KPlain)
+  | None => c3 ←r cond_short t rest; Ok (if c3 then KShort else KPlain)
   end.
 
 (** the tail shared by the two notations: optional exponent, then the three tokens *)
@@ -264,15 +266,15 @@ Record ninst := NInst { n_v : core; n_u : core; n_e : estyle; n_style : nstyle }
 Definition render_e (e : estyle) : list core :=
   match e with
   | ENone => []
-  | EDigits ds => [(TyName, "e" ++ ds)]
+  | EDigits ds => [(TyName, String "e" ds)]
   | ESigned cap neg ds =>
       [(TyName, if cap then "E" else "e"); (TyOp, if neg then "-" else "+"); (TyNumber, ds)]
   end.
 Definition e_text (e : estyle) : string :=
   match e with
   | ENone => ""
-  | EDigits ds => "e" ++ ds
-  | ESigned _ neg ds => "e" ++ (if neg then "-" else "+") ++ ds
+  | EDigits ds => String "e" ds
+  | ESigned _ neg ds => String "e" (String (if neg then "-" else "+")%char ds)
   end.
 Definition render_unc (n : ninst) : list core :=
   match n_style n with
@@ -280,4 +282,68 @@ Definition render_unc (n : ninst) : list core :=
       app ((TyOp, "(") :: (if minus then [(TyOp, "-")] else []))
           (app [n_v n; (TyOp, "+"); (TyOp, "/"); (TyOp, "-"); n_u n; (TyOp, ")")] (render_e (n_e n)))
   | SShort => app [n_v n; (TyOp, "("); n_u n; (TyOp, ")")] (render_e (n_e n))
+  end.
+
+(** tokens with given cores at arbitrary positions *)
+Definition mk (c : core) (p : pos * pos) : utok := UTok c.1 c.2 p.1 p.2.
+Definition place (cs : list core) (ps : list (pos * pos)) : list utok := zip_with mk cs ps.
+
+(** well-formed instances: decimal literals (or nan inside the parenthesised form), digit
+    exponents; for [v(u)] the rewritten uncertainty text must again be a decimal literal *)
+Definition lit_text_ok (s : string) : bool :=
+  match float_of_text s with Some _ => true | None => false end.
+Definition lit_ok (nan_ok : bool) (c : core) : bool :=
+  match c.1 with
+  | TyNumber => lit_text_ok c.2
+  | TyName => nan_ok && String.eqb c.2 "nan"
+  | _ => false
+  end.
+Definition exp_ok (e : estyle) : bool :=
+  match e with ENone => true | EDigits ds | ESigned _ _ ds => nonempty_digits ds end.
+Definition inst_ok (q : quirks) (n : ninst) : bool :=
+  exp_ok (n_e n) &&
+  match n_style n with
+  | SParen _ => lit_ok true (n_v n) && lit_ok true (n_u n)
+  | SShort => lit_ok false (n_v n) && lit_ok false (n_u n)
+              && lit_text_ok (short_unc_text q (n_v n).2 (n_u n).2)
+  end.
+(** what may follow the notation: without an exponent the look-ahead on the rest of the input
+    must find none (this is where the end of the input fails, F15); after a signed exponent
+    whose digits are exactly "0" no NUMBER may follow (the leading-zero special case) *)
+Definition follow_ok (q : quirks) (e : estyle) (rest : list utok) : bool :=
+  match e with
+  | ENone => bool_decide (get_possible_e q rest 0 = Ok None)
+  | EDigits _ => true
+  | ESigned _ _ ds =>
+      negb (String.eqb ds "0") || match rest with t :: _ => negb (is_number t) | [] => false end
+  end.
+
+(** [_apply_e_notation] on cores: nan and zero mantissas stay as they are *)
+Definition apply_core (e : estyle) (c : core) : core :=
+  match e with
+  | ENone => c
+  | _ => if String.eqb c.2 "nan" then c
+         else match float_of_text c.2 with
+              | Some qv => if float_is_zero qv then c else (TyNumber, c.2 ++ e_text e)
+              | None => c
+              end
+  end.
+(** the statement of the property: [v·10^e ; +/- ; u·10^e] (after a leading "-") *)
+Definition expected_cores (q : quirks) (n : ninst) : list core :=
+  match n_style n with
+  | SParen minus =>
+      app (if minus then [(TyOp, "-")] else [])
+          [apply_core (n_e n) (n_v n); (TyOp, "+/-"); apply_core (n_e n) (n_u n)]
+  | SShort =>
+      [apply_core (n_e n) (n_v n); (TyOp, "+/-");
+       apply_core (n_e n) ((n_u n).1, short_unc_text q (n_v n).2 (n_u n).2)]
+  end.
+
+(** the decimal exponent an exponent style denotes *)
+Definition digits_value (s : string) : Z := (read_digits s 0%Z 0%Z).1.1.
+Definition e_value (e : estyle) : Z :=
+  match e with
+  | ENone => 0%Z
+  | EDigits ds => digits_value ds
+  | ESigned _ neg ds => if neg then (- digits_value ds)%Z else digits_value ds
   end.
